@@ -393,15 +393,54 @@ Proof.
     intros. apply W. right. assumption.
 Qed.
 
-Lemma route_listoffsets_known : forall c t p b rest_p rest_t,
-  parts_wf c -> leader_of c t p = Some b ->
-  route_listoffsets c ((t, p :: rest_p) :: rest_t) = Ok b.
+Lemma find_part_none : forall (parts : list (Z * partition)) p,
+  (forall k x, In (k, x) parts -> p_id x = k) ->
+  mget Z.eqb parts p = None ->
+  find (fun kv => p_id (snd kv) =? p) parts = None.
 Proof.
-  intros c t p b rp rt W H. unfold leader_of in H. unfold route_listoffsets.
-  destruct (get_topic c t) as [tp|] eqn:Et; [|discriminate].
-  destruct (mget Z.eqb (t_parts tp) p) as [part|] eqn:Ep; [|discriminate].
-  destruct (find_part_by_id (t_parts tp) p part (fun k x Hin => W t tp k x Et Hin) Ep) as [k Hk].
-  rewrite Hk. cbn [snd]. unfold get_broker_or_zero. rewrite H. reflexivity.
+  induction parts as [|[k0 x0] parts IH]; intros p W H; [reflexivity|].
+  cbn [mget] in H.
+  assert (E0 : p_id x0 = k0) by (apply W; left; reflexivity).
+  unfold find; fold (find (fun kv : Z * partition => p_id (snd kv) =? p) parts).
+  cbn [snd]. rewrite E0.
+  destruct (Z.eqb p k0) eqn:E; [discriminate|].
+  rewrite Z.eqb_sym, E. apply IH; [|assumption].
+  intros. apply W. right. assumption.
+Qed.
+
+(* the whole behaviour of list-offsets routing on a well-formed layout *)
+Lemma route_listoffsets_spec : forall c t p rest_p rest_t,
+  parts_wf c ->
+  route_listoffsets c ((t, p :: rest_p) :: rest_t) =
+  match get_topic c t with
+  | None => Err (ENoTopic t)
+  | Some tp =>
+      match mget Z.eqb (t_parts tp) p with
+      | None => Err (ENoPartition t p)
+      | Some part =>
+          match get_broker c (p_leader part) with
+          | Some b => Ok b
+          | None => Err (ENoLeader t p)
+          end
+      end
+  end.
+Proof.
+  intros c t p rp rt W. unfold route_listoffsets.
+  destruct (get_topic c t) as [tp|] eqn:Et; [|reflexivity].
+  destruct (mget Z.eqb (t_parts tp) p) as [part|] eqn:Ep.
+  - destruct (find_part_by_id (t_parts tp) p part (fun k x Hin => W t tp k x Et Hin) Ep) as [k Hk].
+    rewrite Hk. reflexivity.
+  - rewrite (find_part_none (t_parts tp) p (fun k x Hin => W t tp k x Et Hin) Ep). reflexivity.
+Qed.
+
+Lemma route_listoffsets_ok_iff : forall c t p rest_p rest_t b,
+  parts_wf c ->
+  (route_listoffsets c ((t, p :: rest_p) :: rest_t) = Ok b <-> leader_of c t p = Some b).
+Proof.
+  intros c t p rp rt b W. rewrite (route_listoffsets_spec c t p rp rt W). unfold leader_of.
+  destruct (get_topic c t) as [tp|]; [|split; discriminate].
+  destruct (mget Z.eqb (t_parts tp) p) as [part|]; [|split; discriminate].
+  destruct (get_broker c (p_leader part)) as [b'|]; split; intro H; inversion H; reflexivity.
 Qed.
 
 Lemma split_listoffsets_single : forall ts m, In m (split_listoffsets ts) ->
@@ -439,27 +478,38 @@ Lemma send_route_error : forall c conns r fc e,
 Proof. intros c conns r fc e H. unfold send_request. rewrite H. reflexivity. Qed.
 
 Lemma send_group : forall c conns api g a,
-  0 <= fc_node a -> mhas Z.eqb conns (fc_node a) = true ->
+  fc_err a = 0 -> 0 <= fc_node a -> mhas Z.eqb conns (fc_node a) = true ->
   send_request c conns (RGroup api g) (Some a) = Sent [(TControl, K_FindCoordinator); (TBroker (fc_node a), api)].
 Proof.
-  intros c conns api g a Hnn Hc. unfold send_request. cbn [route]. unfold send_to, grab.
-  destruct (fc_node a >=? 0) eqn:E; [|lia]. rewrite Hc. reflexivity.
+  intros c conns api g a He Hnn Hc. unfold send_request. cbn [route]. rewrite He. cbn [Z.eqb negb].
+  unfold send_to, grab. destruct (fc_node a >=? 0) eqn:E; [|lia]. rewrite Hc. reflexivity.
 Qed.
 
 Lemma send_txn : forall c conns api t a,
-  0 <= fc_node a -> mhas Z.eqb conns (fc_node a) = true ->
+  fc_err a = 0 -> 0 <= fc_node a -> mhas Z.eqb conns (fc_node a) = true ->
   send_request c conns (RTxn api t) (Some a) = Sent [(TControl, K_FindCoordinator); (TBroker (fc_node a), api)].
 Proof.
-  intros c conns api g a Hnn Hc. unfold send_request. cbn [route]. unfold send_to, grab.
-  destruct (fc_node a >=? 0) eqn:E; [|lia]. rewrite Hc. reflexivity.
+  intros c conns api g a He Hnn Hc. unfold send_request. cbn [route]. rewrite He. cbn [Z.eqb negb].
+  unfold send_to, grab. destruct (fc_node a >=? 0) eqn:E; [|lia]. rewrite Hc. reflexivity.
 Qed.
 
 Lemma send_coordinator_unknown_broker : forall c conns api g a,
-  0 <= fc_node a -> mhas Z.eqb conns (fc_node a) = false ->
-  send_request c conns (RGroup api g) (Some a) = Rejected [(TControl, K_FindCoordinator)] RejBrokerNotAvailable.
+  fc_err a = 0 -> 0 <= fc_node a -> mhas Z.eqb conns (fc_node a) = false ->
+  send_request c conns (RGroup api g) (Some a) = Rejected [(TControl, K_FindCoordinator)] RejBrokerNotAvailable
+  /\ send_request c conns (RTxn api g) (Some a) = Rejected [(TControl, K_FindCoordinator)] RejBrokerNotAvailable.
 Proof.
-  intros c conns api g a Hnn Hc. unfold send_request. cbn [route]. unfold send_to, grab.
-  destruct (fc_node a >=? 0) eqn:E; [|lia]. rewrite Hc. reflexivity.
+  intros c conns api g a He Hnn Hc. unfold send_request. cbn [route]. rewrite He. cbn [Z.eqb negb].
+  unfold send_to, grab. destruct (fc_node a >=? 0) eqn:E; [|lia]. rewrite Hc. split; reflexivity.
+Qed.
+
+(* a find-coordinator error fails the request; nothing is sent after the lookup *)
+Lemma send_coordinator_error : forall c conns api g a,
+  fc_err a <> 0 ->
+  send_request c conns (RGroup api g) (Some a) = Rejected [(TControl, K_FindCoordinator)] (RejCoordinatorError (fc_err a))
+  /\ send_request c conns (RTxn api g) (Some a) = Rejected [(TControl, K_FindCoordinator)] (RejCoordinatorError (fc_err a)).
+Proof.
+  intros c conns api g a He. unfold send_request. cbn [route].
+  destruct (fc_err a =? 0) eqn:E; [apply Z.eqb_eq in E; contradiction|]. split; reflexivity.
 Qed.
 
 Lemma send_other : forall c conns api fc,
@@ -703,16 +753,15 @@ Definition kafka_txn_coordinator_apis : list Z :=
   [22 (*InitProducerId*); 24 (*AddPartitionsToTxn*); 25 (*AddOffsetsToTxn*); 26 (*EndTxn*)].
 
 Lemma coordinator_apis_classified :
-  Forall (fun api => api = 12 \/ message_class api = CGroup) kafka_group_coordinator_apis
+  Forall (fun api => message_class api = CGroup) kafka_group_coordinator_apis
   /\ Forall (fun api => message_class api = CTxn) kafka_txn_coordinator_apis.
-Proof.
-  split; repeat (constructor; [first [right; reflexivity | left; reflexivity | reflexivity]|]); constructor.
-Qed.
+Proof. split; repeat (constructor; [reflexivity|]); constructor. Qed.
 
-Lemma heartbeat_not_group_message :
-  In 12 kafka_group_coordinator_apis /\ message_class 12 = CPlain
-  /\ forall c conns key fc, send_request c conns (keyed_request 12 key) fc = Sent [(TControl, 12)].
-Proof. split; [cbn; tauto|]. split; reflexivity. Qed.
+(* hence a request of any of these APIs takes the coordinator route *)
+Lemma coordinator_apis_keyed : forall key,
+  Forall (fun api => keyed_request api key = RGroup api key) kafka_group_coordinator_apis
+  /\ Forall (fun api => keyed_request api key = RTxn api key) kafka_txn_coordinator_apis.
+Proof. intro key. split; repeat (constructor; [reflexivity|]); constructor. Qed.
 
 (* ================================================================== *)
 (* the connection groups follow the layout's brokers *)
